@@ -19,6 +19,7 @@ def gen_case(rnd):
             'specs': specs, 'layout': layout, 'subset': subset_kind, 'dups': rnd.random() < 0.35,
             'repack': rnd.choice(['keep', 'keep', 'yes', 'no', 'auto', None]), 'pick_seed': rnd.randrange(1 << 20),
             'in_sql_max': rnd.choice([1, 2, 3, 950, 950]),
+            'second_round': rnd.random() < 0.4,
             'delete_twice': rnd.random() < 0.2}
 
 
@@ -138,7 +139,45 @@ def run_one(case, base, counters):  # noqa: C901
             bad('delete:other-rows-changed', 'index rows of objects that were not requested changed')
         if set(snap1.loose) != set(snap0.loose) - want:
             bad('delete:other-loose-changed', 'loose files of objects that were not requested changed')
-        if case['repack'] and not probs:
+        rounds = [(case['repack'], want, deleted_content, stored_before, packs_before)] if case['repack'] else []
+        for rnd_i, (mode_r, want_r, deleted_r, stored_r, packs_before_r) in enumerate(rounds):
+            if probs:
+                break
+            if rnd_i == 0 and case.get('second_round'):
+                pass
+            probs += _repack_round(world, cont, root, case, mode_r, deleted_r, stored_r, packs_before_r, counters)
+            if rnd_i == 0 and case.get('second_round') and not probs and len(world.model) >= 2:
+                # a second round: delete some more, repack again (pack ids may have gaps now)
+                snap_b = rawread.Snapshot(root)
+                more = rnd.sample(sorted(world.model), max(1, len(world.model) // 2))
+                deleted2 = {k: world.model[k] for k in more}
+                stored2 = {r.hashkey: rawread.read_range(root, r.pack_id, r.offset, r.length) for r in snap_b.rows if r.hashkey in deleted2}
+                packs2 = {n: open(os.path.join(root, 'packs', n), 'rb').read() for n in snap_b.packs if n.isdigit()}
+                ret2 = cont.delete_objects(more)
+                if sorted(ret2) != sorted(more):
+                    bad('delete:return', f'second delete_objects returned {len(ret2)} keys for {len(more)} existing ones')
+                for k in more:
+                    world.model.pop(k)
+                counters['second-rounds'] += 1
+                rounds.append((rnd.choice(['keep', 'keep', 'yes', 'no', 'auto']), set(more), deleted2, stored2, packs2))
+        return probs
+    finally:
+        world.close()
+
+
+def _repack_round(world, cont, root, case, mode, deleted_content, stored_before, packs_before, counters):  # noqa: C901
+    from disk_objectstore import CompressMode  # pylint: disable=import-outside-toplevel
+
+    probs = []
+    hole_free = {}
+
+    def bad(mech, msg):
+        probs.append((mech, msg))
+
+    snap1 = rawread.Snapshot(root)
+    case = dict(case, repack=mode)
+    if True:
+        if True:
             live_per_pack = {}
             for r in snap1.rows:
                 live_per_pack.setdefault(str(r.pack_id), []).append(r)
@@ -186,9 +225,7 @@ def run_one(case, base, counters):  # noqa: C901
                             bad('repack:keep-changed-hole-free-pack', f'packs/{name} had no holes but changed under repack(KEEP)')
             for problem in snap2.consistency_problems():
                 bad('repack:raw', problem)
-        return probs
-    finally:
-        world.close()
+    return probs
 
 
 def run_batch(case):
